@@ -369,9 +369,30 @@ class Workdir(object):
         return ('test_x.py' if self.case['script'] == 'rel'
                 else os.path.join(self.w, 'test_x.py'))
 
+    def pythonpath(self):
+        """In a third of the cases the machine's own host name does not
+        resolve (a container without an /etc/hosts entry): a sitecustomize
+        module on the path makes socket.gethostbyname(own name) fail the
+        way the resolver does."""
+        if len(self.case['stdout']) % 3 != 2:
+            return repo_root()
+        shim = os.path.join(self.root, 'no-dns')
+        if not os.path.isdir(shim):
+            os.makedirs(shim)
+            with open(os.path.join(shim, 'sitecustomize.py'), 'w') as f:
+                f.write('import socket\n'
+                        '_resolve = socket.gethostbyname\n'
+                        'def gethostbyname(name):\n'
+                        '    if name == socket.gethostname():\n'
+                        '        raise socket.gaierror(-2, "Name or service '
+                        'not known")\n'
+                        '    return _resolve(name)\n'
+                        'socket.gethostbyname = gethostbyname\n')
+        return repo_root() + os.pathsep + shim
+
     def subenv(self):
         env = dict(os.environ)
-        env.update({'PYTHONPATH': repo_root(), 'HOME': self.home,
+        env.update({'PYTHONPATH': self.pythonpath(), 'HOME': self.home,
                     'LOGNAME': 'tvuserzq', 'USER': 'tvuserzq',
                     'TMPDIR': self.tmp, 'PYTHONIOENCODING': 'utf-8',
                     'PYTHONHASHSEED': '0', 'PYTHONDONTWRITEBYTECODE': '1',
